@@ -374,6 +374,14 @@ def run(P, rep, tier):
     r_return_conversion(P, rep)
     from .c16 import r_atomic_operand_type
     r_atomic_operand_type(P, rep, 'R01.4')
+    # sizeof / _Alignof yield size_t (unsigned long): every form of the operator (type name, expression, VLA) - C08 R08.4's rule, re-used
+    from ..report import Report as _Rep, reissue as _reissue
+    from . import c08 as _c08
+    rep.rule('R01.13', 'sizeof and _Alignof yield an unsigned long (size_t) in each of their forms, so that comparisons and arithmetic with them are unsigned (same obligations as C08 R08.4 sizeof-*)', floor=2)
+    _sub = _Rep('C08')
+    _sub.rule('R08.4', '', 1)
+    _c08.r084(P, P.unit('parse.c'), _sub)
+    _reissue(rep, 'R01.13', _sub, '', keep=lambda o: 'sizeof' in o['key'] or 'alignof' in o['key'].lower())
     from ..lib_types import r_address_of_type
     rep.rule('R01.12', 'the address operator yields a pointer to the type of its operand (C11 6.5.3.2p3), so that pointer arithmetic and sizeof on the result use the operand\'s size', floor=5)
     r_address_of_type(P, rep, 'R01.12')
